@@ -302,7 +302,7 @@ func soup(r *rand.Rand, tg *target) []byte {
 
 func main() {
 	c := vk.Init("C11")
-	c.Rule("inputs: (a) every string of length 0..3 over {8,9,=,SOH,1,0,x} (exhaustive, 400 strings); (b) field soups built from the target template's own tags (missing '=', empty fields, repeated SOH, group counts without followers / with wrong counts / wrong first tags, CheckSum tag in the middle) and then frame-fixed by the reference encoder so that they pass the integrity check and reach field and group parsing; (c) byte-level mutations of valid library output; (d) coverage-guided inputs from go test -fuzz (iteration-bounded). Each input is parsed strict and non-strict into every tests/fix44 type and generated templates with nested groups, as an exact-capacity slice and again embedded in a larger buffer with an adversarial tail (results must agree), and looked up with ValueByTag; a sample of the soups (also re-typed as administrative messages) is fed to running sessions of both roles through ServeIncoming, where a panic in the handler loop is recorded. distinct = hash(input, target); non-trivial = the input passes the integrity check (CheckFrame) or is shorter than a framing tag; (f) every all-digit field of valid generated messages given each of 26 hostile values (negative, signed, padded, empty, beyond 32/63/64 bits, exponent/hex/non-ASCII digits), with the frame left as it is and with BodyLength/CheckSum recomputed around the value; (g) the same 26 values in the numeric fields of well-formed ResendRequest / TestRequest / Heartbeat / SequenceReset / Logon messages fed to logged-on sessions with stored messages")
+	c.Rule("inputs: (a) every string of length 0..3 over {8,9,=,SOH,1,0,x} (exhaustive, 400 strings); (b) field soups built from the target template's own tags (missing '=', empty fields, repeated SOH, group counts without followers / with wrong counts / wrong first tags, CheckSum tag in the middle) and then frame-fixed by the reference encoder so that they pass the integrity check and reach field and group parsing; (c) byte-level mutations of valid library output; (d) coverage-guided inputs from go test -fuzz (iteration-bounded). Each input is parsed strict and non-strict into every tests/fix44 type and generated templates with nested groups, as an exact-capacity slice and again embedded in a larger buffer with an adversarial tail (results must agree), and looked up with ValueByTag; a sample of the soups (also re-typed as administrative messages) is fed to running sessions of both roles through ServeIncoming, where a panic in the handler loop is recorded. distinct = hash(input, target); non-trivial = the input passes the integrity check (CheckFrame) or is shorter than a framing tag; (f) every all-digit field of valid generated messages given each of 26 hostile values (negative, signed, padded, empty, beyond 32/63/64 bits, exponent/hex/non-ASCII digits), with the frame left as it is and with BodyLength/CheckSum recomputed around the value; (g) the same 26 values in the numeric fields of well-formed ResendRequest / TestRequest / Heartbeat / SequenceReset / Logon messages fed to logged-on sessions with stored messages; (h) byte streams through real connections (scripted net.Conn -> the library's stream reader -> handler -> session) of both roles, before and after logon, in one piece and cut into random segments: every string of length 0..3 over the alphabet of (a) placed at the start of the stream, inside the framing fields, just before the checksum digits and after a complete message, and field soups raw / frame-fixed / re-typed as administrative messages / with deleted, doubled and replaced bytes, each followed by a valid message; a panic in a goroutine of the library ends the workload process, which is the violation")
 	c.Assume("a panic is caught by recover in the calling goroutine; fatal errors kill the child, which the orchestrator reports as a violation with the input last logged to disk")
 	tgs := targets(c)
 	nSoup := c.Pick(24000, 700000) // per run, spread over targets
@@ -659,6 +659,8 @@ func main() {
 			}
 		}
 	})
+	// (h) hostile byte streams through real connections of both roles
+	connStreams(c, tgs, nw)
 	close(stop)
 	c.Set("max_scheduler_oversleep_ms", atomic.LoadInt64(&maxCanary)/1e6)
 
